@@ -1,32 +1,164 @@
-import GoMailModel.Smtp.Send
+import GoMailModel.Smtp.Auth
 /-
-  Client.DialToSMTPClientWithContext and DialAndSendWithContext (client.go), first without TLS and
-  AUTH (policy NoTLS, SMTPAuthNoAuth); `DialTLS.lean` adds the TLS policies and authentication.
+  Client.DialToSMTPClientWithContext (hello → TLS policy → auth), Client.tls, Client.auth with the
+  auto-discovery preference lists regenerated from client.go, and DialAndSendWithContext.
 -/
 namespace GoMail.Smtp
 open GoMail
 
+inductive TLSPolicy | mandatory | opportunistic | noTLS
+deriving Repr, DecidableEq
+
+inductive AuthType
+  | noAuth | autoDiscover | cramMD5 | custom | login | loginNoEnc | plain | plainNoEnc
+  | scramSHA1 | scramSHA1Plus | scramSHA256 | scramSHA256Plus | xoauth2
+deriving Repr, DecidableEq
+
+def AuthType.name : AuthType → String
+  | .noAuth => "NOAUTH" | .autoDiscover => "AUTODISCOVER" | .cramMD5 => "CRAM-MD5" | .custom => "CUSTOM"
+  | .login => "LOGIN" | .loginNoEnc => "LOGIN-NOENC" | .plain => "PLAIN" | .plainNoEnc => "PLAIN-NOENC"
+  | .scramSHA1 => "SCRAM-SHA-1" | .scramSHA1Plus => "SCRAM-SHA-1-PLUS" | .scramSHA256 => "SCRAM-SHA-256"
+  | .scramSHA256Plus => "SCRAM-SHA-256-PLUS" | .xoauth2 => "XOAUTH2"
+
+def AuthType.ofName (n : String) : Option AuthType :=
+  [AuthType.cramMD5, .login, .plain, .scramSHA1, .scramSHA1Plus, .scramSHA256, .scramSHA256Plus, .xoauth2].find? (fun t => t.name == n)
+
 structure DialCfg where
   helo : Bytes := sb "localhost"
+  host : Bytes := sb "verif.example"
+  policy : TLSPolicy := .noTLS
+  implicitTLS : Bool := false           -- WithSSL and the default dialer: the connection is TLS from the start
+  useSSL : Bool := false                -- c.useSSL (skips the STARTTLS logic)
+  authType : AuthType := .noAuth
+  user : Bytes := []
+  pass : Bytes := []
+  debug : Bool := false
+  logAuthData : Bool := false
+  hmacHex : Bytes → Bytes → Bytes := fun _ _ => []
+  scram : ScramEnv := { algorithm := [], user := none, pass := none, cnonce := [], crypto := fun _ _ _ => ([], []) }
   send : SendCfg := {}
-deriving Repr
 
 /-- connection established by the dial function; smtp.NewClient reads the greeting -/
-def newClient (script : List Act) (caps : List Bytes) : Conn × Option Err :=
-  let c : Conn := { script := script, caps := caps, trace := [.connect] }
+def newClient (cfg : DialCfg) (script : List Act) (caps : List Bytes) : Conn × Option Err :=
+  let c : Conn := { script := script, caps := caps, trace := if cfg.implicitTLS then [.connect, .tlsOn] else [.connect],
+                    serverName := cfg.host, tls := cfg.implicitTLS }
   -- DialToSMTPClientWithContext arms the connection deadline before anything is read
   let (c, _) := c.updateDeadline
   match c.serverTurn .greeting 220 with
   | (c, .error e) => (c.close, some e)
   | (c, .ok _) => (c, none)
 
-def dialPlain (cfg : DialCfg) (script : List Act) (caps : List Bytes) : Conn × Option Err :=
-  match newClient script caps with
+/-- smtp.Client.StartTLS; the handshake happens when the EHLO over the new tls.Conn is written -/
+def Conn.startTLS (c : Conn) : Conn × Option Err :=
+  match c.hello with
   | (c, some e) => (c, some e)
   | (c, none) =>
+    match c.cmd .starttls (sb "STARTTLS") 220 with
+    | (c, .error e) => (c, some e)
+    | (c, .ok _) =>
+      let c := { c with tls := true }
+      -- the handshake consumes one script position
+      if c.srvGone then (c, some .eof)
+      else if c.srvSilent then (c.ev (.stall c.armed), some (if c.armed then .timeout else .blocked))
+      else
+        let (a, rest) := match c.script with
+          | [] => (Act.drop, [])
+          | a :: rest => (a, rest)
+        let c := { c with script := rest }
+        match a with
+        | .ok => (c.ev .tlsOn).ehlo
+        | .drop => ({ c.ev .drop with srvGone := true }, some .eof)
+        | .stall =>
+          let c := { c with srvSilent := true }
+          (c.ev (.stall c.armed), some (if c.armed then .timeout else .blocked))
+        | _ => (c.ev .tlsFail, some .tls)
+
+/-- Client.tls: the policy decision; returns isEncrypted -/
+def clientTLS (cfg : DialCfg) (c : Conn) (isEnc : Bool) : Conn × Bool × Option Err :=
+  if cfg.useSSL || cfg.policy == .noTLS then (c, isEnc, none)
+  else
+    let (c, ext) := c.extension "STARTTLS"
+    if cfg.policy == .mandatory && !ext then (c, isEnc, some .noStartTLS)
+    else
+      let want := cfg.policy == .mandatory || ext
+      let (c, e) := if want then c.startTLS else (c, none)
+      match e with
+      | some e => (c, isEnc, some e)
+      | none =>
+        -- GetTLSConnectionState
+        if !c.isConnected then (c, isEnc, some .noConn)
+        else if !c.tls then (c, false, none)
+        else (c, true, none)
+
+def containsName (mechs : Bytes) (n : String) : Bool := containsSub (sb n) mechs
+
+/-- Client.authTypeAutoDiscover with the preference lists of the source -/
+def autoDiscover (supported : Bytes) (isEnc : Bool) : Option AuthType :=
+  if supported.isEmpty then none
+  else
+    let prefer := if isEnc then Generated.preferEncrypted else Generated.preferUnencrypted
+    let mechs := splitOn 32 supported
+    match prefer.find? (fun n => mechs.contains (sb n)) with
+    | some n => AuthType.ofName n
+    | none => none
+
+/-- what Client.auth does for a concrete (non-custom) type once the mechanism is chosen -/
+def runMech (cfg : DialCfg) (c : Conn) (t : AuthType) : Conn × Option Err :=
+  let r3 {σ} (x : Conn × σ × Option Err) : Conn × Option Err := (x.1, x.2.2)
+  match t with
+  | .plain => r3 (c.authWith (plainMech [] cfg.user cfg.pass cfg.host false))
+  | .plainNoEnc => r3 (c.authWith (plainMech [] cfg.user cfg.pass cfg.host true))
+  | .login => r3 (c.authWith (loginMech cfg.user cfg.pass cfg.host false))
+  | .loginNoEnc => r3 (c.authWith (loginMech cfg.user cfg.pass cfg.host true))
+  | .cramMD5 => r3 (c.authWith (cramMech cfg.user cfg.pass cfg.hmacHex))
+  | .xoauth2 => r3 (c.authWith (xoauth2Mech cfg.user cfg.pass))
+  | .scramSHA1 => r3 (c.authWith (scramMech { cfg.scram with algorithm := sb "SCRAM-SHA-1", plus := false }))
+  | .scramSHA256 => r3 (c.authWith (scramMech { cfg.scram with algorithm := sb "SCRAM-SHA-256", plus := false }))
+  | .scramSHA1Plus =>
+    if !c.isConnected then (c, some .noConn) else if !c.tls then (c, some .tls)
+    else r3 (c.authWith (scramMech { cfg.scram with algorithm := sb "SCRAM-SHA-1-PLUS", plus := true }))
+  | .scramSHA256Plus =>
+    if !c.isConnected then (c, some .noConn) else if !c.tls then (c, some .tls)
+    else r3 (c.authWith (scramMech { cfg.scram with algorithm := sb "SCRAM-SHA-256-PLUS", plus := true }))
+  | _ => (c, some .authNotSupported)
+
+/-- the name whose presence in the advertised list Client.auth checks with strings.Contains -/
+def AuthType.checkName : AuthType → String
+  | .plainNoEnc => "PLAIN" | .loginNoEnc => "LOGIN" | t => t.name
+
+/-- Client.auth (`.custom` without a mechanism set ends in the "unsupported SMTP AUTH type" error) -/
+def clientAuth (cfg : DialCfg) (c : Conn) (isEnc : Bool) : Conn × Option Err :=
+  match cfg.authType with
+  | .noAuth => (c, none)
+  | t =>
+    let (c, has) := c.extension "AUTH"
+    if !has then (c, some .noAuthSupport)
+    else
+      let mechs := match c.ext with
+        | some e => (extGet e (sb "AUTH")).getD []
+        | none => []
+      let chosen : Option AuthType := if t == .autoDiscover then autoDiscover mechs isEnc else some t
+      match chosen with
+      | none => (c, some .authNotSupported)
+      | some t' =>
+        if !containsName mechs t'.checkName then (c, some .authNotSupported)
+        else runMech cfg c t'
+
+/-- Client.DialToSMTPClientWithContext -/
+def dial (cfg : DialCfg) (script : List Act) (caps : List Bytes) : Conn × Option Err :=
+  match newClient cfg script caps with
+  | (c, some e) => (c, some e)
+  | (c, none) =>
+    let c := { c with debug := cfg.debug, logAuthData := cfg.logAuthData }
     match c.Hello cfg.helo with
     | (c, some e) => (c.close, some e)
-    | (c, none) => (c, none)
+    | (c, none) =>
+      match clientTLS cfg c cfg.implicitTLS with
+      | (c, _, some e) => (c.close, some e)
+      | (c, isEnc, none) =>
+        match clientAuth cfg c isEnc with
+        | (c, some e) => (c.close, some e)
+        | (c, none) => (c, none)
 
 structure Outcome where
   conn : Conn
@@ -38,7 +170,7 @@ structure Outcome where
 
 /-- Client.DialAndSendWithContext -/
 def dialAndSend (cfg : DialCfg) (script : List Act) (caps : List Bytes) (ms : List MsgIn) : Outcome :=
-  match dialPlain cfg script caps with
+  match dial cfg script caps with
   | (c, some e) => { conn := c, dialErr := some e }
   | (c, none) =>
     match sendBatch cfg.send c ms with
